@@ -126,6 +126,13 @@ def run(m: Model, r: Report, tier: str) -> None:
         r.check(any(isinstance(n, ast.Assign) and ast.unparse(n.targets[0]) == f"self.{a}" and ast.unparse(n.value) == a for n in ast.walk(init.node)),
                 "R4", f"{init.qualname}#{a}", f"self.{a} is not stored unaltered", loc=init.loc)
     cfg = m.require_class(f"{DOIP}.DoIPConfig")
+    for fname in ("src_addr", "target_addr", "activation_type", "protocol_version"):
+        ann_ = cfg.class_annots.get(fname)
+        lossy = [c_.name for c_ in (m.annotation_classes(cfg.module, ann_, cfg) if ann_ is not None else []) if m.enum_members(c_) is not None
+                 and any("_missing_" in k_.methods for k_ in m.mro(c_))]
+        r.check(ann_ is not None and not lossy, "R4", f"{cfg.qualname}.{fname}#lossless-type",
+                f"the field is typed {ast.unparse(ann_) if ann_ is not None else None}; pydantic coerces the URI value through {lossy}, whose _missing_ hook maps unknown values to a "
+                "catch-all member: the configured value does not reach the wire", loc=cfg.loc)
     r.check({"src_addr", "target_addr", "activation_type", "protocol_version"} <= set(cfg.class_annots), "R4", f"{cfg.qualname}#fields",
             f"DoIPConfig fields: {sorted(cfg.class_annots)}", loc=cfg.loc)
 
